@@ -62,6 +62,13 @@ void harness(void) {
 #elif defined(T_TYPE)
   char t = get_operand_type(s);
   CHECK(t == 'm' || t == 'r' || t == 'v' || t == 'y' || t == 'i' || t == 'e', "operand type letter");
+  /* what imm_tok relies on (it takes the first blank-separated token of the
+   * operand and reads it): an operand typed as immediate has a non-blank character */
+  if (t == 'i') {
+    int nonblank = 0;
+    for (int i = 0; i < LEAFLEN; i++) if ((unsigned long)i < len && s[i] != ' ') nonblank = 1;
+    CHECK(nonblank, "an operand typed as immediate contains a non-blank character (imm_tok's precondition)");
+  }
 #elif defined(T_KW)
   __CPROVER_file_local_tokenizer_c_check_for_keyword(&ins, s, (int)pos);
   CHECK(s[len] == 0, "keyword removal keeps the terminator");
